@@ -17,9 +17,9 @@ func init() {
 		NotDecided: "byte identity after arbitrary histories; range arithmetic (net/http.ServeContent); retention under GC policies (C05).",
 	})
 	registerProperty(&Property{ID: "C03", DesignRef: "DESIGN.md §4 C03, §3.4",
-		Rules:     []string{"PV-BOUNDS#taglist", "TS-SORT", "TS-REFTAG"},
+		Rules:     []string{"PV-BOUNDS#taglist", "TS-SORT", "TS-REFTAG", "TS-GETDESC"},
 		Technique: "difference-bound (ABCD-style) range proof on go/ssa for request-derived integers; ordering checks on the CFG",
-		Decided: "every slice bound / index derived from the request's n, page … is proven in range by the dominating conditions (n=0, negative and oversized values cannot panic); the tag list is filled, sorted, truncated, marshalled in that order; a tag is recorded only from a grammar-checked reference.",
+		Decided: "every slice bound / index derived from the request's n, page … is proven in range by the dominating conditions (n=0, negative and oversized values cannot panic); the tag list is filled, sorted, truncated, marshalled in that order; a tag is recorded only from a grammar-checked reference; tag lookups return the annotated entry and digest lookups a bare descriptor (what makes ‘delete a tag’ and ‘delete a digest’ differ).",
 		NotDecided: "the map semantics of AddDesc/RmDesc (value-level, see C18); strictness of the `last` comparison; exactly-once paging.",
 	})
 	registerProperty(&Property{ID: "C04", DesignRef: "DESIGN.md §4 C04, §3.3, §3.6",
@@ -79,7 +79,7 @@ func init() {
 			"function-typed cache fields through which the call graph finds callees are installed (non-nil); PrunePreFn/PrunePostFn are installed together"},
 	})
 	registerProperty(&Property{ID: "C13", DesignRef: "DESIGN.md §4 C13, §3.2",
-		Rules:     []string{"LK-GUARD", "LK-COPY", "TB-DEEP"},
+		Rules:     []string{"LK-GUARD", "LK-GLOBALS", "LK-COPY", "TB-DEEP"},
 		Technique: "static lockset (Eraser/RacerD style) over the lock engine's per-access held sets, with publication analysis",
 		Decided: "every field of the server, store and cache structs that is written after publication is accessed under one common mutex in every calling context (constructor accesses on unpublished objects exempt); values leaving a critical section are deep copies (every reference field of the copied types re-allocated).",
 		NotDecided: "races on objects reachable only through pointers the lockset model does not track; library internals; ordering by channel / wait-group happens-before is not credited.",
@@ -116,9 +116,9 @@ func init() {
 		NotDecided: "per-second accounting; signal handling outcome; every-combination behaviour as values.",
 	})
 	registerProperty(&Property{ID: "C20", DesignRef: "DESIGN.md §4 C20, §3.3",
-		Rules:     []string{"TS-CLEANUP", "LK-GUARD-CACHE", "LK-PAIR-CACHE"},
+		Rules:     []string{"TS-CLEANUP", "TS-LRU-TOUCH", "LK-GUARD-CACHE", "LK-PAIR-CACHE"},
 		Technique: techPath + "; lockset on the cache's fields",
-		Decided: "at each of the four removal sites an entry is removed only after its cleanup ran with that key and returned nil (or no cleanup is configured / the entry is absent); entries, per-entry time and timer are only touched under the cache mutex; the cache mutex is released on every exit.",
+		Decided: "at each of the four removal sites an entry is removed only after its cleanup ran with that key and returned nil (or no cleanup is configured / the entry is absent); entries, per-entry time and timer are only touched under the cache mutex; the cache mutex is released on every exit; every lookup of a found entry refreshes its last-use time and every insertion initialises it (the structural half of ‘least recently used’).",
 		NotDecided: "LRU order, expiry timing, prune-back-to-limit (value-level); what happens to the old value when Set overwrites a key.",
 	})
 	notApplicable["C18"] = "value-level property of a data structure (contents of the index after arbitrary AddDesc/RmDesc/AddChildren sequences): no sound static argument in this family bounds it; its one structural clause (copies are independent) is decided by TB-DEEP under C11/C13"
